@@ -360,7 +360,21 @@ func (x *Exec) appendOp(p *Path, cc *ssa.CallCommon, args []Val) Val {
 		return Val{}
 	}
 	et := sl.Elem()
-	r := e.alloc(p, "append")
+	var r string
+	if s1.S == "0" || s1.Off != "0" {
+		// a nil slice has no capacity: append allocates. (A first operand at a non-zero offset is modelled as
+		// reallocating too: the result is kept at offset 0.)
+		r = e.alloc(p, "append")
+	} else {
+		// capacity is not tracked: the result either re-uses the backing array of the first operand (in place) or is
+		// a new array; nothing may be concluded from assuming one of the two
+		r = e.fresh("append", "Int")
+		nb := e.fresh("brk", "Int")
+		p.assume("(and (> " + r + " 0) (or (= " + r + " " + s1.S + ") (= " + r + " " + p.brk + ")) (= " + nb + " (+ " + p.brk + " 1)))")
+		p.brk = nb
+		p.nonnil[r] = true
+		e.note("append: capacity is not tracked, the result may or may not share the first operand's backing array")
+	}
 	newLen := "(+ " + s1.Len + " " + s2.Len + ")"
 	if s2.K != KSlice {
 		// append([]byte, string...)
